@@ -82,7 +82,7 @@ Qed.
 (* injectivity is what the allocator provides for live objects, and it is needed: if two live
    tapes compared equal, a cross-tape addition would be recorded instead of panicking *)
 Definition collision_program : list (instr Z) :=
-  [INewTape Z; INewTape Z; IVar 0 2%Z; IVar 1 3%Z; IAdd Z 2 3; IAdd Z 0 1].
+  [INewTape; INewTape; IVar 0 2%Z; IVar 1 3%Z; IAdd 2 3; IAdd 0 1].
 
 Lemma collision_observable :
   snd (run Fpops (sl_of Nat.eqb (fun _ => 0)) (init (R:=Z)) collision_program)
